@@ -218,7 +218,7 @@ PROPS["C02"] = dict(
 PROPS["C08"] = dict(
     level="proof", runner="C08", model_files=COMPILE_MODEL, proof_files=["Compile_proofs.v", "Compile_sorted.v", "Compile_redeemers.v", "Compile_accounts.v"], check_files=["Compile_check.v"],
     theorems=["C08_sorted_inputs_perm", "C08_sorted_inputs_sorted", "C08_index_is_rank", "C08_index_points_at_item", "C08_order_strict_total",
-              "C08_mint_redeemer_points_at_policy", "C08_mint_redeemer_needs_policy", "C08_reward_accounts_sorted", "C08_reward_index_is_ledger_rank", "C08_reward_redeemers_point_at_account"],
+              "C08_mint_redeemer_points_at_policy", "C08_mint_redeemer_needs_policy", "C08_reward_accounts_sorted", "C08_reward_index_is_ledger_rank", "C08_reward_redeemers_point_at_account", "C08_same_transaction_ranks_by_index_number"],
     partial=["the end-to-end equality of the witness set's redeemer map with the specification-side map is checked per case (clause 201); the theorems cover the mechanism: the looked-up list is the sorted permutation of the body inputs, the index found is the item's rank in the ledger's order, and a mint / burn redeemer carries the position of its own policy or the compilation fails"],
     trusted_base=COMPILE_TB, assumptions=["distinct reward accounts per withdrawal directive in generated cases"],
     keep_ids=_only(lambda i: i in (1, 2, 121, 122) or 200 <= i < 300),
